@@ -14,6 +14,7 @@ DECIDED = ("R1 CQE conservation: in schedule_pending every loop iteration passes
            "(immediate errors: now).")
 NOT_DECIDED = "result values as numbers, latency distribution, ordering among completions."
 DECIDED += "; R4 also: the amount charged against the capacity has the same arithmetic shape in exec_write and write_at_internal, and the page cache is probed before the page is inserted (ring scheduler and tokio shim); R8 exhaustive scans of schedule_pending and IoUringHostState::crash"
+DECIDED += "; R9 the page-cache eviction loop terminates for every max_pages; AsyncCancel targets only operations still in flight"
 ASSUMPTIONS = ["the consumer keeps buffers alive until the CQE is reaped (io_uring contract)"]
 
 RS = "turmoil_io_uring::sim::RingState::"
